@@ -143,6 +143,11 @@ func (m *module) loadModule(proj *Project, rawLabel string) (starlark.StringDict
 	}
 	label, _ = label.RelativeTo(m.label.Package)
 	label.Kind = "module"
+	if label.Name == "" {
+		// A label without a file name refers to the package's BUILD file: use the name the package
+		// loader registers it under, so that the file is only executed once.
+		label.Name = "BUILD.dawn"
+	}
 
 	m.dependencies = append(m.dependencies, label.String())
 	return proj.loadModule(m, label)
